@@ -150,6 +150,8 @@ pub enum AAction {
     FeeChange { row: u8, base: U128, mult: U128 },
     ValidatorUpdate { key: u8, power: u32 },
     CurrencyPairsChange { add: bool, pair: u8 },
+    /// a rollup data submission large enough to matter for the block size limits
+    BigRollup { rollup: u8, len: u32, fee: u8 },
 }
 
 #[derive(Clone, Debug, Serialize, Deserialize, PartialEq, Eq)]
@@ -1014,6 +1016,15 @@ pub fn concretize(atx: &ATx, view: &View, pre: &Dump, built_so_far: &[BuiltTx], 
                     data: Bytes::from(
                         (0..*len).map(|i| (i as u8).wrapping_mul(31).wrapping_add(*rollup)).collect::<Vec<u8>>(),
                     ),
+                    fee_asset: w.asset(fee_idx).clone(),
+                })
+            }
+            AAction::BigRollup { rollup, len, fee } => {
+                let fee_idx = pick_fee_asset(*fee);
+                charge_fee(&mut avail, "rollup_data_submission", u128::from(*len), fee_idx);
+                Action::RollupDataSubmission(RollupDataSubmission {
+                    rollup_id: w.rollups[*rollup as usize % N_ROLLUPS],
+                    data: Bytes::from(vec![0x5a_u8.wrapping_add(*rollup); *len as usize]),
                     fee_asset: w.asset(fee_idx).clone(),
                 })
             }
